@@ -46,6 +46,9 @@ META = dict(
 META["rule"] += (
     " " + 'Added after the second round of seeded changes: series of 140 (thorough also 200, 270) samples with hub nodes in the past / future / both (parabola, hub-first, hub-last, hub-middle), both graph types, all relations.')
 
+META["rule"] += (
+    " " + 'Added after the third round: the accessors `visibility(i, j)` (all pairs of short series, neighbouring pairs otherwise) and `visibility_single(i)` against the reference graph.')
+
 def _eq(a, b):
     a = np.asarray(a, dtype=float)
     b = np.asarray(b, dtype=float)
